@@ -25,7 +25,8 @@ EXTENDS MiniJsonEnc
 
 CONSTANTS N,        \* value length in symbols for the law "value"
           NumLen,   \* text length for the law "number"
-          Laws      \* the laws to check (a subset of AllLaws)
+          Laws,     \* the laws to check (a subset of AllLaws)
+          Pool3     \* size of the value pool for three groups in the law "views"
 
 VARIABLE c
 
@@ -38,11 +39,13 @@ K == <<107>>                       \* the key "k"
 Op(kind, key, val) == [op |-> kind, key |-> key, val |-> val]
 
 \* ---- views --------------------------------------------------------------------
-VP == {<<>>, <<97>>, <<48, 48, 55>>, <<55>>, <<84, 114, 117, 101>>, <<34>>, <<1>>, <<255>>, <<195, 169>>}
+VPSeq == <<<<>>, <<97>>, <<48, 48, 55>>, <<55>>, <<84, 114, 117, 101>>, <<34>>, <<1>>, <<255>>, <<195, 169>>>>
+VP == {VPSeq[i] : i \in 1..Len(VPSeq)}
+VP3 == {VPSeq[i] : i \in 1..Pool3}
 NameOf(i) == <<96 + i>>            \* a, b, c
 BAR == 124
 GroupsOf(vals) == <<JoinSeq(vals, <<BAR>>)>> \o vals
-ViewCases(n) == {[vals |-> v, named |-> S, view |-> w] : v \in [1..n -> VP], S \in SUBSET (1..n), w \in {".", "#", ".#"}}
+ViewCases(n) == {[vals |-> v, named |-> S, view |-> w] : v \in [1..n -> IF n = 3 THEN VP3 ELSE VP], S \in SUBSET (1..n), w \in {".", "#", ".#"}}
 NamesOf(S) == LET q == SetToSeq(S) IN [k \in 1..Len(q) |-> <<NameOf(q[k]), q[k]>>]
 
 ViewLaw(x) ==
@@ -230,8 +233,7 @@ SyntaxLaw(x) ==
 
 \* ---- the case space -------------------------------------------------------------------
 AllLaws == {"value", "views", "number", "numeq", "utf8seq", "utf8cp", "byte", "syntax"}
-VPSeq == SetToSeq(VP)
-Parts(law) == CASE law = "value" -> 0..Len(SymSeq) [] law = "views" -> 0..Len(VPSeq) [] law = "number" -> 0..7
+Parts(law) == CASE law = "value" -> 0..Len(SymSeq) [] law = "views" -> 0..Pool3 [] law = "number" -> 0..7
                 [] law = "numeq" -> 1..8 [] law = "utf8seq" -> 1..4 [] OTHER -> {0}
 
 Cases(law, part) ==
